@@ -3,6 +3,10 @@
 
 #include <algorithm>
 
+#ifdef AITOOLBOX_VERIF
+#include <functional>
+#endif
+
 #include <boost/heap/fibonacci_heap.hpp>
 
 #include <AIToolbox/Logging.hpp>
@@ -133,6 +137,28 @@ namespace AIToolbox::POMDP {
              */
             template <IsModel M>
             std::tuple<double, double, VList, MDP::QFunction> operator()(const M & model, const Belief & initialBelief);
+
+#ifdef AITOOLBOX_VERIF
+#define AITOOLBOX_VERIF_GAPMIN_OBSERVER 1
+            /**
+             * @brief Verification hook: read-only view of the bounds after one iteration of the main loop.
+             */
+            struct VerifSnapshot {
+                double lb, ub;
+                const VList * lbVList;
+                const MDP::QFunction * ubQ;
+                const UpperBoundValueFunction * ubV;
+                const Matrix2D * fibQ;
+            };
+
+            /**
+             * @brief Verification hook: process-wide observer, called after each iteration of the main loop.
+             *
+             * If set, and it returns true, the loop stops after the current
+             * iteration (as if the bounds had converged).
+             */
+            static std::function<bool(const VerifSnapshot &)> & verifObserver();
+#endif
 
         private:
             using IntermediatePOMDP = Model<MDP::Model>;
@@ -369,6 +395,11 @@ namespace AIToolbox::POMDP {
             auto oldVar = var;
             var = ub - lb;
             AI_LOGGER(AI_SEVERITY_INFO, "Updated bounds to " << lb << ", " << ub << " -- size LB: " << lbVList.size() << ", size UB " << ubV.first.size());
+
+#ifdef AITOOLBOX_VERIF
+            if (verifObserver() && verifObserver()(VerifSnapshot{lb, ub, &lbVList, &ubQ, &ubV, &fibQ}))
+                break;
+#endif
 
             // Stop if we didn't find anything new, or if we have converged the bounds.
             if (newLbBeliefsSize + newUbBeliefsSize == 0 || std::fabs(var - oldVar) < tolerance_ * 5)
